@@ -301,7 +301,7 @@ export async function run(ctx) {
           if (va !== vb) ctx.violation({ signature: `verdicts-differ|value-alias-chain|${id}`, clause: "validators-differ", detail: `${id}: single ${va} split ${vb}`, replay: where });
         }
   }
-  const nProgs = ctx.share(12000, 200000);
+  const nProgs = ctx.share(36000, 200000);
   let sampled = 0;
   for await (const item of corpus(ctx, { label: "C09", count: nProgs, features: FEATURES })) {
     const { prog, parsers } = item;
